@@ -77,6 +77,8 @@ class FlatDesc(object):
         self.script = {}        # (cb, k) -> (cmds, out)   out = ('ret', b) | ('raise', kind, n)
         self.history = []       # cmds (kind, a, b)
         self.cb_slot = {}       # cb id -> slot code of its registration (for naming)
+        self.model_attr = 'state'   # name of the model's state attribute (`model_attribute=`)
+        self.ignore_flip = None  # machine.ignore_invalid_triggers assigned AFTER construction (None: left alone)
 
     # -- protocol ---------------------------------------------------------------------------
     def enc_cfg(self):
@@ -97,7 +99,8 @@ class FlatDesc(object):
                 o += _l(t['before']) + _l(t['after'])
         for l in (self.prepare_event, self.before_sc, self.after_sc, self.finalize, self.on_exception, self.on_final):
             o += _l(l)
-        o += [int(bool(self.ignore)), int(self.queued), self.initial]
+        eff_ignore = self.ignore if getattr(self, 'ignore_flip', None) is None else self.ignore_flip
+        o += [int(bool(eff_ignore)), int(self.queued), self.initial]
         return o
 
     def enc_script(self):
@@ -175,6 +178,8 @@ class Knobs(object):
         self.p_share_cb = 0.05      # reuse an existing callback id in another list
         self.foreign_models = False  # commands may name models that are not (yet) registered
         self.deterministic = False   # every invocation of a callback behaves like its first (C12)
+        self.p_custom_attr = 0.0     # model_attribute other than 'state' (opt-in per stream)
+        self.p_ignore_flip = 0.0     # the machine-level ignore flag is changed after construction (opt-in)
         self.__dict__.update(kw)
 
 
@@ -208,6 +213,10 @@ def gen_flat(rng, kn):
     d.initial = rng.randrange(nstates)
     d.queued = rng.random() < kn.p_queued
     d.send_event = rng.random() < kn.p_send_event
+    if rng.random() < kn.p_custom_attr:
+        d.model_attr = 'mode'
+    if rng.random() < kn.p_ignore_flip:
+        d.ignore_flip = rng.choice([False, True])
     d.prepare_event = cbs(SLOT['prepare_event'])
     d.before_sc = cbs(SLOT['before_state_change'])
     d.after_sc = cbs(SLOT['after_state_change'])
@@ -361,12 +370,19 @@ class FlatRun(object):
                   before_state_change=self.names(d.before_sc), after_state_change=self.names(d.after_sc),
                   prepare_event=self.names(d.prepare_event), finalize_event=self.names(d.finalize),
                   on_exception=self.names(d.on_exception), on_final=self.names(d.on_final), queued=d.queued)
+        attr = getattr(d, 'model_attr', 'state')
+        if attr != 'state':
+            kw['model_attribute'] = attr
         kw.update(extra)
-        return self.cls(**kw)
+        mach = self.cls(**kw)
+        if getattr(d, 'ignore_flip', None) is not None:
+            # states that do not set the flag themselves follow the machine's CURRENT value
+            mach.ignore_invalid_triggers = d.ignore_flip
+        return mach
 
     # -- recording ---------------------------------------------------------------------------
     def state_id(self, model):
-        v = getattr(model, 'state', None)
+        v = getattr(model, getattr(self.d, 'model_attr', 'state'), None)
         if isinstance(v, str) and v.startswith('s') and v[1:].isdigit():
             return int(v[1:])
         self.bad.append(('odd-state', repr(v)))
@@ -483,7 +499,7 @@ class FlatRun(object):
         models = [mo._mid for mo in self.machine.models]
         st = {}
         for m, mo in self.model_objs.items():
-            if 'state' in mo.__dict__:
+            if getattr(self.d, 'model_attr', 'state') in mo.__dict__:
                 st[m] = self.state_id(mo)
         return models, st
 
